@@ -209,7 +209,7 @@ RULE = ("seeded random table models (layered re-converging, negative costs, ties
 
 # ================================================================================ C01 / C02 / C09 / C10-solver / C11-solver
 def check_c01(tier, pid="C01"):
-    sc = SolveCheck(pid, tier)
+    sc = SolveCheck(pid, tier, "proof" if pid in ("C01", "C02") else "other")
     if pid == "C01": sc.proofs("C01+C01u", ["C01_seq_solver_correct_under_diagram_contracts", "C01_sequential_solver_returns_optimum",
                                             "C01_sequential_solver_returns_optimum_unbounded_relax", "C01_holds_on_table_family", "C01_example_instance"])
     if pid == "C02": sc.proofs("C02+C02u", ["C02_best_exact_path_replays", "C02_chain_feasible_in_exact_arithmetic",
@@ -324,21 +324,23 @@ def check_c01(tier, pid="C01"):
     expl = {
         "C01": "Executable Coq model of SequentialSolver (Solver.v, on top of the diagram model) compared run by run with the code (is_exact, value, bounds; explored and "
                "poll counts when no tie occurred) and, independently, the implementation's value compared with exhaustive enumeration extracted from the Coq "
-               "specification (opt_enum). Theorem: assume-guarantee correctness of the solver loop (SolverProofs.v) once registered; diagram contracts partly open.",
+               "specification (opt_enum). Theorems (Props/C01.v, Props/C01u.v): correctness of the solver loop under the diagram contracts (SolverProofs.v) and the unconditional "
+               "form with the contracts proved about Mdd.compile (Assembly.v) for the clean flavours without cache / dominance rule and SimpleFringe.",
         "C02": "Every reported solution is replayed through the model's transition / cost functions; value = lower bound = Completion value; after an "
-               "uninterrupted run upper bound = value. The diagram-level theorem (best path of an exact node replays to its value) is in MddExact.v once registered.",
+               "uninterrupted run upper bound = value. Theorems: the best path of an exact node replays to its value (MddExact.v); the solution returned by the sequential solver replays in exact "
+               "arithmetic to the reported value (Assembly.C01_solution_replays).",
         "C09": "Caching vs non-caching solvers vs exhaustive enumeration on re-converging instances; the Coq solver model includes the threshold cache, so equality of "
                "explored-node and poll counts with the code validates the threshold computations. Search-level soundness theorem is an open obligation.",
     }[pid]
-    openo = {"C01": ["C01 for cache / dominance / pooled configurations (C09, C10, C15)", "diagram contracts K2-K4 (C06/C07/C08 semantic theorems)"],
-             "C02": ["parallel part: covered by un-scheduled runs only"],
+    openo = {"C01": ["C01 theorem for cache / dominance / pooled / NoDupFringe configurations (covered by correspondence + oracle only)"],
+             "C02": ["C02 theorem for cache / dominance / pooled / NoDupFringe configurations and for parallel runs cut off by a cutoff"],
              "C09": ["C09_cache_preserves_optimum (search-level)", "per-compilation threshold soundness"]}[pid]
     return sc.finish(RULE, expl, openo, extra)
 
 
 # ================================================================================ C05 / C19 (cutoff at every poll)
 def check_cutoff(tier, pid):
-    sc = SolveCheck(pid, tier)
+    sc = SolveCheck(pid, tier, "proof")
     if pid == "C05": sc.proofs("C05+C05u", ["C05_seq_anytime_sound", "C05_seq_lb_le_ub", "C05_sequential_anytime_bounds_sound", "C05_holds_on_table_family"])
     if pid == "C19": sc.proofs("C19+C19u", ["C19_cutoff_monotone", "C19_cutoff_monotone_any_later_point", "C19_eventually_the_uninterrupted_run",
                                        "C19_compile_prefix_determinism", "C19_bounds_monotone_in_cutoff", "C19_bounds_monotone_any_later_cutoff",
@@ -417,17 +419,18 @@ def check_cutoff(tier, pid):
             sc.dis.append((insts[0], l, a, b, "fringe-level"))
     expl = {"C05": "Counting cutoff firing at every poll index 1..K+1 of the uninterrupted run (exhaustive in k) for each instance/configuration: bounds enclose the "
                    "optimum from exhaustive enumeration, solution replays to the lower bound, is_exact only when optimal; the Coq solver model is run with the same "
-                   "cutoff index and compared. Parallel part: see C03/C04 runs. Anytime-soundness theorem: open obligation.",
+                   "cutoff index and compared. Parallel part: see C03/C04 runs. Theorem: Assembly.C05_sequential_anytime (any cutoff point).",
             "C19": "All consecutive cutoff indices of each run: lower bound non-decreasing, upper bound non-increasing in k, exact with both bounds at the optimum "
-                   "after the last poll; Coq solver model compared at every k. Monotonicity theorem: open obligation (needs the determinism / prefix lemma)."}[pid]
+                   "after the last poll; Coq solver model compared at every k. Theorems: Assembly.C19_monotone(_gen), C19_eventually_full (via SolverCutoff.compile_agree)."}[pid]
     return sc.finish(RULE + "; cutoff firing at every poll index of the uninterrupted run", expl,
-                     ["diagram contracts K1-K4 for the concrete Mdd.compile (MddSim)", "parallel part of C05: no theorem (scheduled runs only)"] if pid == "C05"
-                     else ["diagram contracts K1-K4 for the concrete Mdd.compile (MddSim)"])
+                     ["parallel part of C05: no full theorem (partial lemmas D3_*; scheduled runs with cutoffs)",
+                      "cache / dominance / pooled / NoDupFringe configurations: correspondence + oracle only"] if pid == "C05"
+                     else ["cache / dominance / pooled / NoDupFringe configurations: correspondence + oracle only"])
 
 
 # ================================================================================ C14 (primal)
 def check_c14(tier):
-    sc = SolveCheck("C14", tier)
+    sc = SolveCheck("C14", tier, "proof")
     sc.proofs("C14+C14u", ["C14_seq_solver_correct_with_primal", "C14_set_primal_replaces_only_when_strictly_greater",
                            "C14_primal_never_hides_the_optimum"])
     if not sc.build(): return sc.chk.finish()
@@ -485,7 +488,7 @@ def check_c14(tier):
             sc.compare_model(I, case, li, lm)
     return sc.finish(RULE + "; primal = (value, witness solution) taken from the specification's enumeration: optimum, best sub-optimal, worst",
                      "Warm-start runs compared with max(primal, optimum) from exhaustive enumeration and with the Coq solver model started from set_primal.",
-                     ["C14 via seq_solver_correct_primal (SolverProofs.v) once registered; diagram contracts partly open"])
+                     ["cache / dominance / pooled / NoDupFringe configurations: correspondence + oracle only"])
 
 
 # ================================================================================ C15 (long arcs)
